@@ -135,14 +135,25 @@ def eval_run_transparency(case):
                     la, lb = pf.stdout.split('\n'), pr.stdout.split('\n')
                     k = next((i for i, (x, y) in enumerate(zip(la, lb)) if x != y), min(len(la), len(lb)))
                     V.append(Violation('modes.split_write', case, {'file_mode': la[k:k + 2], 'run_mode': lb[k:k + 2]}))
+            elif case['what'] == 'lingering':
+                # the program closes its standard error and exits well over a second later: its output and its status count
+                p = subprocess.run(['/venv/bin/python', main_py, '-r', '/bin/sh', '-c',
+                                    'echo "[1000.000]  -> wl_display@1.sync(new id wl_callback@3)" >&2; exec 2>&-; sleep %s; exit 7' % case['seconds']],
+                                   input='q\n', capture_output=True, text=True, env=env, cwd=d, timeout=60)
+                if p.returncode != 7 or 'wl_display@1a.sync' not in sut.strip_sgr(p.stdout):
+                    V.append(Violation('modes.lingering_program', case, {'returncode': p.returncode, 'expected_returncode': 7,
+                                                                          'stdout': p.stdout[-300:], 'stderr': p.stderr[-300:]}))
             else:
                 words = case['words']
+                prog = case.get('program', '/bin/sh')
                 outf = os.path.join(d, 'argv')
-                p = subprocess.run(['/venv/bin/python', main_py, '-r', '/bin/sh', '-c', 'out="$1"; shift; : > "$out"; for a in "$@"; do printf "%s\\n" "$a" >> "$out"; done; exit 4',
+                p = subprocess.run(['/venv/bin/python', main_py, '-r', prog, '-c', 'out="$1"; shift; tr "\\0" "\\n" < /proc/$$/cmdline | head -n 1 > "$out.argv0"; : > "$out"; for a in "$@"; do printf "%s\\n" "$a" >> "$out"; done; exit 4',
                                     'sh', outf] + words, input='q\n', capture_output=True, text=True, env=env, cwd=d, timeout=60)
                 got = open(outf).read().split('\n')[:-1] if os.path.exists(outf) else None
-                if got != words or p.returncode != 4:
-                    V.append(Violation('modes.run_arguments', case, {'program_saw': got, 'returncode': p.returncode, 'stderr': p.stderr[-300:]}))
+                argv0 = open(outf + '.argv0').read().strip() if os.path.exists(outf + '.argv0') else None
+                if got != words or p.returncode != 4 or argv0 != prog:
+                    V.append(Violation('modes.run_arguments', case, {'program_saw': got, 'program_name_given': prog, 'program_saw_as_argv0': argv0,
+                                                                     'returncode': p.returncode, 'stderr': p.stderr[-300:]}))
         except subprocess.TimeoutExpired:
             V.append(Violation('modes.timeout', case, {}))
     return Eval(V, outcome=[case['what'], len(V)], nontrivial=True, transitions=2)
@@ -155,6 +166,9 @@ def gen_run_transparency(tier):
         yield {'what': 'split_write', 'cut': c}
     for words in (['-g'], ['--gdb', 'x'], ['-lg'], ['-r', '-p'], ['a b', '-Cg', '--run'], ['-f', 'wl_pointer', '-l', 'file'], []):
         yield {'what': 'arguments', 'words': words}
+    # a bare program name is looked up on PATH by the system and reaches the program as typed
+    yield {'what': 'arguments', 'words': ['x'], 'program': 'sh'}
+    yield {'what': 'lingering', 'seconds': 1.4}
 
 
 def gen_modes(tier):
@@ -253,6 +267,9 @@ SCRIPTS = {
     'split_mid_line_tail': [L1 + L2[:9], L2[9:] + 'last'],
     'three_writes': [L1, 'noise\n', L2],
     'no_output': [],
+    # the program closes its standard error (daemonises, `exec 2>&-`) and only exits two seconds later: its status still counts
+    'closes_stderr_then_lingers': [L1 + L2, ('close',), ('sleep', 2.0)],
+    'lingers_quietly': [L1, ('sleep', 2.0), L2],
 }
 
 
@@ -279,7 +296,7 @@ def _schedule_env(case):
     from frontends.tui import Controller, Arguments
     script = SCRIPTS[case['script']]
     status, cap = case['status'], case['cap']
-    want_out, want_err = twin_output(''.join(script))
+    want_out, want_err = twin_output(''.join(t for t in script if isinstance(t, str)))
 
     def run_one(choices):
         sut.reset_globals()
